@@ -285,10 +285,26 @@ def check(chk, repo, tier):
 
     sigma = ["\\", "`", '"', "'", "\n", "a", "n", "x", "0", " ", comp[0],
              "{", "%"]
+    # characters the STRING arm of the transpiler and the lexer mention in
+    # short constants are special to somebody: they join the alphabet
+    extra = []
+    sources = [n_ for n_ in ast.walk(repo.mod("lexer").tree)]
+    tfn = repo.mod("transpile").functions.get("transpile_token")
+    if tfn is not None:
+        sources += list(ast.walk(tfn))
+    for n_ in sources:
+        if isinstance(n_, ast.Constant) and isinstance(n_.value, str) \
+                and 1 <= len(n_.value) <= 4:
+            for ch in n_.value:
+                if ch not in sigma and ch not in extra:
+                    extra.append(ch)
+    extra = extra[:40]
+    chk.unit("alphabet characters taken from lexer / STRING-arm constants",
+             len(extra))
     maxlen = 3 if tier == "thorough" else 2
     n = 0
     for ln in range(0, maxlen + 1):
-        alpha = sigma if ln <= 2 else sigma[:9]
+        alpha = sigma + extra if ln <= 2 else sigma[:9]
         for tup in itertools.product(alpha, repeat=ln):
             s = "".join(tup)
             n += 1
